@@ -122,4 +122,112 @@ impl SwM {
             r.is_ok() ==> r.unwrap().value@ <= impact_of(*liquidity_pool_delta, self.params.unwrap()).unwrap().value@,
 //@body
 }
+
+// ---------------------------------------------------------------------------------------------
+// positions: PositionExt::position_price_impact - the same rule over the open interest and the virtual inventory for positions
+// ---------------------------------------------------------------------------------------------
+/// the nested helper of position_price_impact: the size delta goes to the position's own side
+pub struct ReassignedValuesP { pub delta_long_usd_value: S, pub delta_short_usd_value: S }
+impl ReassignedValuesP {
+//@unit C03.position_price_impact.ReassignedValues.new
+//@ file crates/model/src/position.rs
+//@ within pub trait PositionExt<const DECIMALS: u8>: Position<DECIMALS> >> impl<T: Zero + Clone> ReassignedValues<T>
+//@ fn new
+//@ sig fn new(is_long: bool, size_delta_usd: &T) -> Self
+//@ sub Zero::zero\(\) => S::zero()
+//@ sub Self \{ => ReassignedValuesP {
+    fn new(is_long: bool, size_delta_usd: &S) -> (r: ReassignedValuesP)
+        ensures is_long ==> r.delta_long_usd_value == *size_delta_usd && r.delta_short_usd_value@ == 0,
+                !is_long ==> r.delta_short_usd_value == *size_delta_usd && r.delta_long_usd_value@ == 0,
+//@body
+}
+/// `Delta<&Signed>` as used here: both sides given
+pub struct DeltaP { pub long: S, pub short: S }
+impl DeltaP {
+    /// glue for `Delta::new_both_sides(is_long_first, first, second)` (under contract in C04 / C05)
+    pub fn new_both_sides(is_long_first: bool, first: &S, second: &S) -> (r: DeltaP)
+        ensures is_long_first ==> r.long == *first && r.short == *second, !is_long_first ==> r.long == *second && r.short == *first
+    { if is_long_first { DeltaP { long: *first, short: *second } } else { DeltaP { long: *second, short: *first } } }
+}
+/// the virtual inventory for positions as a pool: netting its two sides (Pool::checked_cancel_amounts) and shifting both sides
+/// (Pool::checked_apply_delta) are deterministic partial functions
+pub uninterp spec fn cancel_of(v: VPool) -> Option<VPool>;
+pub uninterp spec fn apply_of(v: VPool, dl: S, ds: S) -> Option<VPool>;
+impl VPool {
+    #[verifier::external_body]
+    pub fn checked_cancel_amounts(&self) -> (r: Result<VPool, E>)
+        ensures r.is_ok() == cancel_of(*self).is_some(), r.is_ok() ==> r.unwrap() == cancel_of(*self).unwrap()
+    { unimplemented!() }
+    #[verifier::external_body]
+    pub fn checked_apply_delta(&self, delta: DeltaP) -> (r: Result<VPool, E>)
+        ensures r.is_ok() == apply_of(*self, delta.long, delta.short).is_some(), r.is_ok() ==> r.unwrap() == apply_of(*self, delta.long, delta.short).unwrap()
+    { unimplemented!() }
+}
+/// the market as a position reads it: impact parameters, the open interest (a two-sided balance) and the optional virtual inventory
+pub struct PMkt { pub params: Option<PriceImpactParams>, pub oi: Option<VPool>, pub vi: Option<Option<VPool>> }
+impl PMkt {
+    pub fn position_impact_params(&self) -> (r: Result<PriceImpactParams, E>)
+        ensures r.is_ok() == self.params.is_some(), r.is_ok() ==> r.unwrap() == self.params.unwrap()
+    { match self.params { Some(p) => Ok(p), None => Err(E::Other) } }
+    /// the repository returns `Result<impl Balance>` (the merged open interest); here a reference to the carrier
+    pub fn open_interest(&self) -> (r: Result<&VPool, E>)
+        ensures r.is_ok() == self.oi.is_some(), r.is_ok() ==> *r.unwrap() == self.oi.unwrap()
+    { match &self.oi { Some(v) => Ok(v), None => Err(E::Other) } }
+    pub fn virtual_inventory_for_positions_pool(&self) -> (r: Result<Option<&VPool>, E>)
+        ensures r.is_ok() == self.vi.is_some(), r.is_ok() ==> (r.unwrap().is_some() == self.vi.unwrap().is_some())
+            && (r.unwrap().is_some() ==> *r.unwrap().unwrap() == self.vi.unwrap().unwrap())
+    { match &self.vi { Some(Some(v)) => Ok(Some(v)), Some(None) => Ok(None), None => Err(E::Other) } }
+}
+pub struct PosP { pub long: bool, pub mkt: PMkt }
+/// usd deltas of the two sides for a size delta of this position
+pub open spec fn dl_of(p: PosP, size: S) -> S { if p.long { size } else { S(0) } }
+pub open spec fn ds_of(p: PosP, size: S) -> S { if p.long { S(0) } else { size } }
+/// the impact of the real open interest
+pub open spec fn real_impact(p: PosP, size: S) -> Option<PriceImpact> {
+    match vdelta_of(p.mkt.oi.unwrap(), dl_of(p, size), ds_of(p, size), N(1), N(1)) { Some(d) => impact_of(d, p.mkt.params.unwrap()), None => None }
+}
+/// the virtual inventory the virtual impact is computed on: netted, and shifted up by |size| on both sides for a decrease
+pub open spec fn adjusted_vi(p: PosP, size: S) -> Option<VPool> {
+    match cancel_of(p.mkt.vi.unwrap().unwrap()) {
+        Some(l) => if size@ < 0 { apply_of(l, S((-size@) as IW), S((-size@) as IW)) } else { Some(l) },
+        None => None,
+    }
+}
+impl PosP {
+    pub fn is_long(&self) -> (r: bool) ensures r == self.long { self.long }
+    pub fn market(&self) -> (r: &PMkt) ensures *r == self.mkt { &self.mkt }
+
+//@unit C03.PositionExt.position_price_impact
+//@ file crates/model/src/position.rs
+//@ within pub trait PositionExt<const DECIMALS: u8>: Position<DECIMALS>
+//@ fn position_price_impact
+//@ sig fn position_price_impact( &self, size_delta_usd: &Self::Signed, include_virtual_inventory_impact: bool, ) -> crate::Result<PriceImpact<Self::Signed>>
+//@ sub struct ReassignedValues<T> \{[\s\S]*?\n        \}\n\n        impl<T: Zero \+ Clone> ReassignedValues<T> \{[\s\S]*?\n        \}\n =>
+//@ sub let usd_price = One::one\(\); => let usd_price: N = N::one();
+//@ sub let ReassignedValues \{ => let ReassignedValuesP {
+//@ sub = ReassignedValues::new\( => = ReassignedValuesP::new(
+//@ sub Delta::new_both_sides\( => DeltaP::new_both_sides(
+//@ subopt (\w+)\.value (<=|>=|<|>) (\w+)\.value => \1.value.0 \2 \3.value.0
+    pub fn position_price_impact(&self, size_delta_usd: &S, include_virtual_inventory_impact: bool) -> (r: Result<PriceImpact, E>)
+        ensures
+            r.is_ok() ==> self.mkt.params.is_some() && self.mkt.oi.is_some() && real_impact(*self, *size_delta_usd).is_some(),
+            // non-negative real impact, opt-out, or no virtual inventory: the impact of the real open interest
+            r.is_ok() && (real_impact(*self, *size_delta_usd).unwrap().value@ >= 0 || !include_virtual_inventory_impact || (self.mkt.vi.is_some() && self.mkt.vi.unwrap().is_none()))
+                ==> r.unwrap() == real_impact(*self, *size_delta_usd).unwrap(),
+            // otherwise THE WORSE of the two: the virtual inventory (netted; both sides shifted by |size| for a decrease) with the same usd deltas,
+            // unit prices and parameters replaces the real impact exactly when it is more negative
+            r.is_ok() && real_impact(*self, *size_delta_usd).unwrap().value@ < 0 && include_virtual_inventory_impact && self.mkt.vi.is_some() && self.mkt.vi.unwrap().is_some()
+                ==> ({
+                    let real_i = real_impact(*self, *size_delta_usd).unwrap();
+                    let av = adjusted_vi(*self, *size_delta_usd);
+                    av.is_some() && ({
+                        let vd = vdelta_of(av.unwrap(), dl_of(*self, *size_delta_usd), ds_of(*self, *size_delta_usd), N(1), N(1));
+                        vd.is_some() && impact_of(vd.unwrap(), self.mkt.params.unwrap()).is_some()
+                            && r.unwrap() == (if impact_of(vd.unwrap(), self.mkt.params.unwrap()).unwrap().value@ < real_i.value@ { impact_of(vd.unwrap(), self.mkt.params.unwrap()).unwrap() } else { real_i })
+                    })
+                }),
+            // in every case: never better than the real open interest's impact
+            r.is_ok() ==> r.unwrap().value@ <= real_impact(*self, *size_delta_usd).unwrap().value@,
+//@body
+}
 } // verus!
